@@ -140,7 +140,8 @@ LISTS = [[], [3, 1, 2], [1, 1, 2, 1], [2, None, 1], ["b", "A", "c", "a"], ["b", 
 # sort_natural: case-insensitive ties (stability), mixed types ordered by their lower-cased text, nil, booleans
 NAT_LISTS = [["b", "B", "a", "A"], ["B", "b", "A", "a"], ["b", 1, "A", 10, 9], [True, None, "x", False], ["Zeta", "alpha", "Beta", None],
              ["a10", "A9", "a1"], [[2, "b"], ["B", 1]], ["none", None, "NONE"], ["", " ", "a"]]
-DICTS = [[{"k": 1, "t": "x"}, {"k": 2}, {"k": None, "t": "y"}, {"k": 1, "t": False}], [{"k": "x"}, {"k": "y"}, {"t": 1}], []]
+DICTS = [[{"k": 1, "t": "x"}, {"k": 2}, {"k": None, "t": "y"}, {"k": 1, "t": False}], [{"k": "x"}, {"k": "y"}, {"t": 1}], [],
+         [{"k": "", "t": False}, {"k": "x", "t": "T"}, {"k": "", "t": "f"}, {"t": False}]]
 # map over things that are not all hashes: nil items, strings (substring rule), scalars, nested arrays, a bare hash
 MAP_INPUTS = [[{"k": 1}, None, {"k": 3}], [{"k": 1}, 5, None], [None, 5], [{"k": 1}, "xk", "z"], ["k"], [{"k": 1}, True], [{"k": 1}, 1.5],
               [[{"k": 1}, {"z": 0}], [{"k": 2}]], {"k": 7}, {"z": 7}, "k", 5, None, UNDEF, [{"k": [1, 2]}, {"k": {"a": 1}}], [{"1": "one"}, {"None": 0}]]
@@ -502,7 +503,7 @@ def gen_cases(ck: Check):
             yield "map", d, [key], "", o_map
             yield "where", d, [key], "", o_where
             yield "reject", d, [key], "", o_reject
-            for val in (1, "x", None, 2, UNDEF):
+            for val in (1, "x", None, 2, UNDEF, False, ""):     # a defined value selects by equality also when it is falsy
                 yield "where", d, [key, val], "", o_where
                 yield "reject", d, [key, val], "", o_reject
     for v in MAP_INPUTS:
